@@ -285,7 +285,7 @@ var rawIDT = []rawID{
 // answers and id_token claims)
 var hostile = []pair{{"null", "null"}, {"number", "5"}, {"negative", "-1"}, {"float", "3600.5"}, {"exponent-overflow", "1e400"},
 	{"huge-integer", "99999999999999999999999"}, {"bool", "true"}, {"empty-string", `""`}, {"string", `"x"`}, {"numeric-string", `"3600"`},
-	{"huge-string", q(hugeGarbage[:1<<20])}, {"empty-array", "[]"}, {"array-of-null", "[null]"}, {"array-of-number", "[5]"},
+	{"huge-string", q(hugeGarbage[:128<<10])}, {"empty-array", "[]"}, {"array-of-null", "[null]"}, {"array-of-number", "[5]"},
 	{"array-of-strings", `["a","b"]`}, {"nested-array", `["a",{"b":[]}]`}, {"empty-object", "{}"}, {"nested-object", `{"a":{"b":"c"}}`},
 	{"absent", absent}, {"nul-escape", `"\u0000"`}}
 
